@@ -69,6 +69,7 @@ impl CommonResponse for Response {
     fn name(&self) -> Option<&str> { Some(&self.name) }
     fn map(&self) -> Option<&str> { Some(&self.map) }
     fn game_mode(&self) -> Option<&str> { Some(&self.game_mode) }
+    fn game_version(&self) -> Option<&str> { Some(&self.game_version) }
     fn players_maximum(&self) -> u32 { self.players_maximum.into() }
     fn players_online(&self) -> u32 { self.players_online.into() }
     fn players_bots(&self) -> Option<u32> { Some(self.players_bots.into()) }
